@@ -39,8 +39,16 @@ def run(ctx, chk):
                         if adt.endswith("decoder::Decoder") and fld in wr:
                             wr[fld].add(mir_name(p).split("::{closure")[0].split("::")[-1])
     allow = {"offset": {"word", "string"}, "limit": {"set_limit", "clear_limit", "word", "string"}, "bytes": set()}
+    # a private helper that only the allowed writers call writes on their behalf
+    callers_of = {}
+    for p_, fn_ in mir.fns.items():
+        for b_ in fn_["blocks"]:
+            if b_["t"]["t"] == "call" and b_["t"].get("rn") and (b_["t"].get("rs") or "").endswith("Decoder"):
+                callers_of.setdefault(b_["t"]["rn"], set()).add(mir_name(p_).split("::{closure")[0].split("::")[-1])
+    private = {k_ for k_, d_ in dm.items() if d_["vis"] != "pub"}
     for fld in wr:
-        extra = wr[fld] - allow[fld]
+        helpers = {w_ for w_ in wr[fld] if w_ in private and callers_of.get(w_) and callers_of[w_] <= (allow[fld] | private)}
+        extra = wr[fld] - allow[fld] - helpers
         chk.check(R1, not extra, "writers:Decoder." + fld, "Decoder.%s is also written by %s" % (fld, sorted(extra)),
                   raw.where(sorted(extra)[0], "Decoder") if extra else None, sample=sorted(wr[fld]), key="C11:writers:%s:%s" % (fld, ",".join(sorted(extra))))
     adt = [a for p, a in mir.adts.items() if p.endswith("decoder::Decoder")]
